@@ -10,6 +10,7 @@ import Honeycomb.Model.Session3
 import Honeycomb.Model.SessionScene
 import Honeycomb.Model.SessionGeo
 import Honeycomb.Model.SessionKernels
+import Honeycomb.Model.SessionVtk
 
 namespace HC
 
@@ -22,7 +23,7 @@ def firstSome {α β γ : Type} (fs : List (α → β → Option γ)) (a : α) (
 
 def allHooks : Hooks where
   txOp := firstSome [txOp3, txOpK]
-  top := firstSome [topScene, topGeo, top3, topGrid, topIO]
+  top := firstSome [topScene, topGeo, top3, topGrid, topIO, topVtk]
 
 def stepAll (s : Sess) (line : String) : Sess × String := step allHooks s line
 
